@@ -28,11 +28,20 @@ Shell layer (any generator can use it):
                              case is always one that really failed; replay is unaffected).
 
 Site-program layer (reference kinds x symbol kinds, used by C01/C27/C28):
-  program_strategy(modes, ...)   Hypothesis strategy of raw JSON specs valid for all `modes`
-  realise(spec)                  -> Program (normalised; invalid combinations dropped by construction)
-  Program.emit(cwd)              -> assembles; returns {"objs": [...], "helper_src": ...}
-  Program.expected()             -> expected stdout text per the generator's own model
-  Program.classes()              -> ["kind/symkind", ...] for histograms
+  program_strategy(max_defs, max_sites, def_kinds=None, ntu=(2,4), binds=None)
+                                 Hypothesis strategy of raw JSON specs (ints/strs only)
+  realise(spec, modes, rare_refs=(), allow_known=False) -> Program
+                                 normalised program that is inside the soundness domain (`ref_ok`)
+                                 of *every* output kind in `modes`; targets / reference kinds are
+                                 picked by index modulo the sound choices, so every raw spec and
+                                 every shrink of it is a valid program
+  Program.emit(cwd)              assembles t0.o.. + drv.o (+ libvhelper.so, linked by GNU ld, when
+                                 DSO symbols are used); returns {"objs": [...], "libs": [...]}
+  Program.expected() / .expected_rc()   stdout / exit status per the generator's own model
+  Program.classes()              ["ref/kind:bind", ...] for histograms
+  Program.known_domains()        signatures of known findings whose exact domain the program enters
+  Program.explicit(ntu, defs, sites, modes)   build from already-normalised lists (matrix passes)
+  ref_ok(ref, def, mode, k)      the calibrated soundness table; known_domain(ref, def, mode)
 See the section "Site programs" below for the spec format.
 """
 import functools
@@ -499,8 +508,11 @@ class Program:
             tu = r["tu"] % self.ntu
             k = r["k"] % 4
             chosen = None
-            for off in range(nd):
-                t = self.defs[(r["tgt"] + off) % nd]
+            order = [(r["tgt"] + off) % nd for off in range(nd)]
+            if r["aux"] & 2:      # half of the sites look for a local definition of their own TU first
+                order.sort(key=lambda i: not (self.defs[i]["bind"] == "local" and self.defs[i]["tu"] == tu))
+            for di in order:
+                t = self.defs[di]
                 if t["bind"] == "local" and t["tu"] != tu:
                     continue
                 if t["kind"] == "abs" and t["tu"] == tu:
@@ -569,6 +581,25 @@ class Program:
     def expected_rc(self):
         return 1 + (len(self.sites) & 0x3f)
 
+    @staticmethod
+    def def_section(d):
+        """Name of the input section a definition is emitted into (None for abs/common/undefined)."""
+        kind = d["kind"]
+        suffix = "" if d["pad"] == 2 else "." + d["name"]
+        if kind in ("func",):
+            return ".text" + suffix
+        if kind == "ifunc":
+            return ".text." + d["name"]
+        if kind == "data":
+            return ".data" + suffix
+        if kind == "rodata":
+            return ".rodata" + suffix
+        if kind in ("tdata", "tbss"):
+            return "." + kind
+        if kind == "str":
+            return ".rodata.str1.1"
+        return None
+
     # -- emission ---------------------------------------------------------------------------------
     @staticmethod
     def _decl(name, bind, typ):
@@ -588,15 +619,16 @@ class Program:
         if weak_copy:
             did = did | 0x8000          # the losing copy carries a different id
         s = []
+        suffix = "" if d["pad"] == 2 else "." + name      # pad == 2: plain .text/.data/.rodata shared by many defs
         if kind == "func":
-            s.append(f'    .section .text.{name},"ax",@progbits\n    .balign 8\n')
+            s.append(f'    .section .text{suffix},"ax",@progbits\n    .balign 8\n')
             s.append("    .quad 0x9090909090909090\n" * d["pad"])
             s.append(self._decl(name, bind, "@function"))
             s.append(f"{name}:\n    mov ${did << 8}, %eax\n    ret\n    .balign 8\n    mov ${(did << 8) | 1}, %eax\n    ret\n"
                      f"    .size {name}, .-{name}\n")
         elif kind in ("data", "rodata"):
             sec, fl = (".data", "aw") if kind == "data" else (".rodata", "a")
-            s.append(f'    .section {sec}.{name},"{fl}",@progbits\n    .balign 8\n')
+            s.append(f'    .section {sec}{suffix},"{fl}",@progbits\n    .balign 8\n')
             s.append("    .quad 0x5a5a5a5a5a5a5a5a\n" * d["pad"])
             s.append(self._decl(name, bind, "@object"))
             s.append(f"{name}:\n" + "".join(f"    .quad {(did << 8) | k}\n" for k in range(4)) + f"    .size {name}, 32\n")
@@ -846,12 +878,12 @@ def realise(spec, modes, rare_refs=(), allow_known=False):
     return Program(spec, modes, rare_refs, allow_known)
 
 
-def program_strategy(max_defs=10, max_sites=12, def_kinds=None, ntu=(2, 4)):
+def program_strategy(max_defs=10, max_sites=12, def_kinds=None, ntu=(2, 4), binds=None):
     from hypothesis import strategies as st
     kinds = def_kinds or DEF_KINDS
-    d = st.fixed_dictionaries({"tu": st.integers(0, 5), "kind": st.sampled_from(kinds), "bind": st.sampled_from(BINDS),
+    d = st.fixed_dictionaries({"tu": st.integers(0, 5), "kind": st.sampled_from(kinds), "bind": st.sampled_from(binds or BINDS),
                                "pad": st.integers(0, 2), "aux": st.integers(0, 23), "dup": st.sampled_from([0, 0, 0, 1, 2])})
     s = st.fixed_dictionaries({"tu": st.integers(0, 5), "ref": st.integers(0, 63), "tgt": st.integers(0, 39),
                                "k": st.integers(0, 3), "aux": st.integers(0, 15)})
-    return st.fixed_dictionaries({"ntu": st.integers(*ntu), "defs": st.lists(d, min_size=2, max_size=max_defs),
-                                  "sites": st.lists(s, min_size=1, max_size=max_sites)})
+    return st.fixed_dictionaries({"ntu": st.integers(*ntu), "defs": st.lists(d, min_size=3, max_size=max_defs),
+                                  "sites": st.lists(s, min_size=min(5, max_sites), max_size=max_sites)})
